@@ -88,23 +88,21 @@ Definition reopened (s : statedb) : statedb :=
 Lemma enc_idx_inj x y : enc_idx x = enc_idx y -> x = y.
 Proof. intros H. pose proof (idx_rt x) as A. rewrite H, idx_rt in A. injection A as ->. reflexivity. Qed.
 
-Lemma open_val_committed d t : vt_index t <> None ->
+Lemma open_val_committed d t : sorted (vt_info t) -> vt_index t <> None ->
   open_val (db_add_val (vroot t) t d) (vroot t) = Some t.
 Proof.
-  intros Hi. unfold open_val. cbn [db_add_val d_val rfind].
+  intros Hs Hi. unfold open_val. cbn [db_add_val d_val rfind].
   destruct (rheqb (vroot t) (vroot vt_empty)) eqn:E.
-  - apply rheqb_eq in E. unfold vroot in E. apply root_val_inj in E. destruct E as (_ & E & _).
-    cbn in E. destruct (vt_index t); [discriminate|contradiction].
+  - apply rheqb_eq in E. apply root_val_nil in E; [contradiction|exact Hs].
   - rewrite rheqb_refl. reflexivity.
 Qed.
 
-Lemma open_stk_committed d t :
+Lemma open_stk_committed d t : sorted (st_recs t) ->
   open_stk (db_add_stk (sroot t) t d) (sroot t) = Some t.
 Proof.
-  unfold open_stk. cbn [db_add_stk d_stk rfind].
+  intros Hs. unfold open_stk. cbn [db_add_stk d_stk rfind].
   destruct (rheqb (sroot t) (sroot st_empty)) eqn:E.
-  - apply rheqb_eq in E. unfold sroot in E. apply root_stk_inj in E. destruct E as (E1 & E2).
-    destruct t as [r p]. cbn in *. destruct r; [|discriminate]. destruct p; [discriminate|reflexivity].
+  - apply rheqb_eq in E. apply root_stk_nil in E; [rewrite E; reflexivity|exact Hs].
   - rewrite rheqb_refl. reflexivity.
 Qed.
 
@@ -135,8 +133,9 @@ Proof.
   unfold roots, reopened. cbn [fst snd s_acc s_val s_stk].
   assert (Hoa : open_acct d3 (aroot (ac_trie a1)) = Some (ac_trie a1)) by exact O1.
   assert (Hov : open_val d3 (vroot (vl_trie (s_val s1))) = Some (vl_trie (s_val s1))).
-  { change (open_val d3) with (open_val d2). apply open_val_committed. rewrite (vf_index _ FB). discriminate. }
-  assert (Hos : open_stk d3 (sroot (sk_trie (s_stk s1))) = Some (sk_trie (s_stk s1))) by apply open_stk_committed.
+  { change (open_val d3) with (open_val d2). apply open_val_committed; [apply (tv_sorted _ (iv_trie _ B))|].
+    rewrite (vf_index _ FB). discriminate. }
+  assert (Hos : open_stk d3 (sroot (sk_trie (s_stk s1))) = Some (sk_trie (s_stk s1))) by (apply open_stk_committed, (is_trie _ C)).
   destruct (flushed_stk (s_stk s1) C FC FD) as (TS & _ & EP).
   split; [|split; [|split]].
   - unfold new_state. rewrite Hoa, Hov, Hos.
